@@ -1,3 +1,79 @@
-//! Deliberate violations, one per zero-expected rule, analysed by the same driver as gimli
-//! on every run. A rule that does not fire on its fixture is reported as broken.
-pub fn placeholder() {}
+//! Deliberate violations, one per zero-expected rule, analysed by the same driver as gimli on
+//! every run. A rule that does not fire on its fixture is reported as broken (the check then
+//! cannot decide). Nothing here is ever executed.
+#![no_std]
+#![allow(dead_code, clippy::all)]
+
+use gimli::{Reader, Result};
+
+/// An iterator that never empties its reader.
+pub struct BadIter<R: Reader> {
+    input: R,
+}
+
+impl<R: Reader> BadIter<R> {
+    /// Advance. If an error occurs it is returned as `Err(e)`, and all subsequent calls
+    /// return `Ok(None)`.  (It does not: liveness fixture for T1 and T2.)
+    pub fn next(&mut self) -> Result<Option<u8>> {
+        let b = self.input.read_u8()?;
+        Ok(Some(b))
+    }
+}
+
+/// Liveness fixture for T3: recursion depth chosen by the input.
+pub fn recursive<R: Reader>(input: &mut R) -> Result<u64> {
+    let v = input.read_u8()?;
+    if v == 0 {
+        recursive(input)
+    } else {
+        Ok(u64::from(v))
+    }
+}
+
+/// Liveness fixture for P (overflow): an input-chosen factor.
+pub fn tainted_mul<R: Reader>(input: &mut R) -> Result<u64> {
+    let a = input.read_uleb128()?;
+    Ok(a * 8)
+}
+
+/// Liveness fixture for P (division by an input-chosen value).
+pub fn tainted_div<R: Reader>(input: &mut R) -> Result<u64> {
+    let a = input.read_u64()?;
+    let b = input.read_u64()?;
+    Ok(a / b)
+}
+
+/// Liveness fixture for P (unwrap of an input-dependent Option).
+pub fn tainted_unwrap<R: Reader>(input: &mut R) -> Result<u8> {
+    let a = input.read_u64()?;
+    Ok(u8::try_from(a).ok().unwrap())
+}
+
+/// Liveness fixture for N: unchecked narrowing of an input value.
+pub fn narrow<R: Reader>(input: &mut R) -> Result<u8> {
+    let a = input.read_u32()?;
+    Ok(a as u8)
+}
+
+/// Liveness fixture for T4: a loop that re-clones its reader and therefore never progresses.
+pub fn spin<R: Reader>(input: &R, want: u8) -> u64 {
+    let mut n = 0u64;
+    loop {
+        let mut c = input.clone();
+        match c.read_u8() {
+            Ok(b) if b == want => return n,
+            _ => n = n.wrapping_add(1),
+        }
+    }
+}
+
+/// Liveness fixture for R1: a section offset built from a plain integer read.
+pub fn offset_from_plain_read<R: Reader<Offset = usize>>(input: &mut R) -> Result<gimli::DebugStrOffset<usize>> {
+    let v = input.read_u32()?;
+    Ok(gimli::DebugStrOffset(v as usize))
+}
+
+/// Liveness fixture for U0: an unsafe block outside the audited set.
+pub fn peek(bytes: &[u8]) -> u8 {
+    unsafe { *bytes.as_ptr() }
+}
